@@ -1,6 +1,7 @@
 import GdVerif.Run.Reader
 import GdVerif.Run.Valve
 import GdVerif.Run.GenValve
+import GdVerif.Run.ValveFaults
 import GdVerif.Run.Gs1
 import GdVerif.Run.GenGs1
 import GdVerif.Run.Gs2
@@ -39,6 +40,7 @@ open Gd Gd.Run
 def allEntries : List (String × (List String → String)) := List.flatten [
   readerEntries,
   valveEntries,
+  valveFaultEntries,
   masterEntries,
   settingsEntries,
   viewEntries,
